@@ -3,6 +3,9 @@
 use crate::campaign::{campaign, seed32, Engine, InFlight, Known, Tier, WorkerReport};
 use crate::engine::Failure;
 use crate::props::gc::GcEngine;
+use crate::props::multi::MultiEngine;
+use crate::props::prefixes::PrefixEngine;
+use crate::props::twin::{TwinEngine, TwinKind};
 use crate::props::hexlab::{ConcatEngine, HexEngine, LabelEngine, LabelEnumEngine};
 use serde_json::Value;
 
@@ -21,7 +24,7 @@ pub struct Meta {
     pub subs: Vec<Sub>,
 }
 
-pub const PROPS: &[&str] = &["C01", "C02", "C03", "C04", "C05", "C15", "C16", "C17"];
+pub const PROPS: &[&str] = &["C01", "C02", "C03", "C04", "C05", "C08", "C09", "C10", "C15", "C16", "C17", "C19"];
 
 pub fn leak(s: &str) -> &'static str {
     Box::leak(s.to_string().into_boxed_str())
@@ -65,6 +68,24 @@ pub fn meta(prop: &str) -> Option<Meta> {
             assumptions: gc_assume,
             subs: vec![Sub { id: "gcmodel", quick: 8_000, thorough: 1_600_000 }],
         },
+        "C08" => Meta {
+            level: "exploration",
+            rule: "history H (<=60 generated calls, all profiles, every N, capacities 2..256) builds g; g' = load(save(g)) through a real file; (i) the complete observation (keys, len, kids in order, v_print, inspect of every vertex, Debug, to_xml, to_dot) of g and g' must be equal; (ii) a generated continuation (<=40 calls; allocator-dependent calls only when H never used the allocator, so that the one permitted difference cannot show) plus the drain epilogue is applied to both and every result, key set and observation must stay equal; (iii) hook snapshots are compared (modulo allocator position, absent slots) only as a recorded trigger. Non-trivial: at save time a live group holds an unread datum, a heap-encoded datum (>8 bytes) exists, and the continuation/epilogue collects a group.",
+            assumptions: &["differential: the implementation is compared with itself across save+load", "the generator is guided by the reference model so that calls stay inside preconditions and limits"],
+            subs: vec![Sub { id: "twin", quick: 4_000, thorough: 800_000 }],
+        },
+        "C09" => Meta {
+            level: "fault_enumeration",
+            rule: "graphs from generated histories (<=50 calls; profiles overwrite-heavy, gc-orders, limit-edge; every N; capacities 2..256) are saved through save(); the complete image must load back (control); then for EVERY cut point 0 <= k < size (thorough: always; quick: every k for images <= 4096 bytes, otherwise the first and last 600 positions plus 1024 evenly spread ones) the file is truncated to k bytes and load() must return Err: never Ok, never a panic. Non-trivial image: holds a heap-encoded datum (>8 bytes) and a vertex with >=2 edges. Distinct = distinct (image, k) pairs of non-trivial images.",
+            assumptions: &["a crash during the non-atomic write leaves a prefix of the image (no torn or reordered blocks)", "load() is called with the N the image was saved with"],
+            subs: vec![Sub { id: "prefixes", quick: 64, thorough: 3_200 }],
+        },
+        "C10" => Meta {
+            level: "exploration",
+            rule: "as C08 with g' = g.clone(); the continuation always may contain next_id/merge/script variables (the allocator position must be copied). Half of the cases check independence instead: the continuation and the epilogue are applied to one copy only (either direction); the other copy's complete observation must be unchanged and it must then drain exactly as the reference model at the split point says (data bytes, collections). Non-trivial: live group with unread datum and heap datum at clone time, a group dies afterwards, and (same-continuation mode) the continuation calls the allocator.",
+            assumptions: &["differential: original vs clone", "the generator is guided by the reference model"],
+            subs: vec![Sub { id: "twin", quick: 4_000, thorough: 800_000 }],
+        },
         "C15" => Meta {
             level: "exploration",
             rule: "per case: generated 12-byte content, 8-byte padding, 4 random + 10 special i64, 4 random + 12 special f64 bit patterns; for every length 0..=12 and every representation (canonical, heap Vector, inline array with non-zero padding) EVERY index i in {0..=14, usize::MAX-1, usize::MAX} for [i], byte_at, tail, [i..], [..i], [..=i], IndexMut and every pair (i,j) of those for [i..j], [i..=j] is compared with the same operation on the byte slice (equal result or both panic); plus bytes/len/to_vec/print/Display/Debug/[..]/eq across representations/from_str(print)/to_i64/to_f64/to_utf8/to_bool and the From conversions. The index space is enumerated completely per content. Distinct non-trivial = distinct (bytes, representation, padding) triples whose whole index space was checked.",
@@ -82,6 +103,12 @@ pub fn meta(prop: &str) -> Option<Meta> {
             rule: "sub-campaign labels-enum: EVERY text of length 0..=4 (quick) / 0..=5 (thorough) over the 14-symbol alphabet {a Z 7 + - _ α ρ φ 𝜑 0 1 9 space} is classified by an independent reading of the documented grammar into in-domain (must parse, print back identically, be injective, and equal the directly constructed value), must-be-rejected (more than 8 characters without α prefix, malformed or overflowing index) or unspecified (empty, contains a space, +index, leading zeros, α-index text longer than 8: skipped and counted); sub-campaign labels: generated texts of length 5..=10 over the alphabet, arbitrary unicode texts, α+1..22 digits; every canonical value (Greek(c), Alpha(n), Str of 2..=8) met is printed, parsed back, compared, and looked up in a graph (bind under the constructed label, kid under the parsed one). Distinct non-trivial = distinct judged (not unspecified) texts.",
             assumptions: &["the text grammar as read from the property statement and src/label.rs documentation (DESIGN §6 C17 lists the unspecified classes)"],
             subs: vec![Sub { id: "labels-enum", quick: 1, thorough: 1 }, Sub { id: "labels", quick: 400, thorough: 32_000 }],
+        },
+        "C19" => Meta {
+            level: "exploration",
+            rule: "two configurations (N from 1..=16, capacity from {2..24,64,256}) are drawn; a history (<=60 generated calls incl. next_id, merge of trees, slice, clone, save+load, + drain epilogue) is generated inside the limits of the smaller one; its complete observation trace after every call (results, keys, kids() in enumeration order, v_print, inspect text of every vertex, Debug text; next_id results, ids created by merge, keys/kids of slices) must be identical (a) on two runs in one process (every HashSet/HashMap gets fresh random keys), (b) for a sample of cases in another process, (c) under the other configuration. Non-trivial: the history contains a merge, slice or next_id, some vertex has >=2 labels, and the two configurations differ.",
+            assumptions: &["differential: the implementation is compared with itself", "image sizes returned by save() are masked (they depend on the capacity by nature)", "exports (to_xml/to_dot) are left to C18"],
+            subs: vec![Sub { id: "multi-config", quick: 3_000, thorough: 600_000 }],
         },
         _ => return None,
     })
@@ -105,6 +132,10 @@ pub fn run_sub(
             let e = GcEngine::for_prop(leak(prop));
             campaign(&e, tier, seed, cases, known, inflight, max_shrink)
         }
+        ("C08", "twin") => campaign(&TwinEngine { kind: TwinKind::SaveLoad }, tier, seed, cases, known, inflight, max_shrink),
+        ("C09", "prefixes") => campaign(&PrefixEngine { all_prefixes: tier == Tier::Thorough }, tier, seed, cases, known, inflight, 100),
+        ("C10", "twin") => campaign(&TwinEngine { kind: TwinKind::Clone }, tier, seed, cases, known, inflight, max_shrink),
+        ("C19", "multi-config") => campaign(&MultiEngine, tier, seed, cases, known, inflight, 600),
         ("C15", "hexenum") => campaign(&HexEngine, tier, seed, cases, known, inflight, 50),
         ("C16", "concatenum") => {
             let e = ConcatEngine { tolerate: known.open.keys().cloned().collect() };
@@ -125,6 +156,10 @@ pub fn run_sub(
 pub fn replay(prop: &str, engine: &str, payload: &Value) -> Result<Option<Failure>, String> {
     match (prop, engine) {
         ("C01" | "C02" | "C03" | "C04" | "C05", "gcmodel") => Ok(GcEngine::for_prop(leak(prop)).replay(payload)),
+        ("C08", "twin") => Ok(TwinEngine { kind: TwinKind::SaveLoad }.replay(payload)),
+        ("C09", "prefixes") => Ok(PrefixEngine { all_prefixes: true }.replay(payload)),
+        ("C10", "twin") => Ok(TwinEngine { kind: TwinKind::Clone }.replay(payload)),
+        ("C19", "multi-config") => Ok(MultiEngine.replay(payload)),
         ("C15", "hexenum") => Ok(HexEngine.replay(payload)),
         ("C16", "concatenum") => Ok(ConcatEngine { tolerate: Default::default() }.replay(payload)),
         ("C17", "labels" | "labels-enum") => Ok(LabelEngine.replay(payload)),
@@ -140,6 +175,10 @@ pub fn run_case(prop: &str, engine: &str, case: &Value) -> Result<Option<Failure
             let c = serde_json::from_value(case.clone()).map_err(|e| e.to_string())?;
             Ok(e.run(&c).failure)
         }
+        ("C08", "twin") => Ok(TwinEngine { kind: TwinKind::SaveLoad }.run(&serde_json::from_value(case.clone()).map_err(|e| e.to_string())?).failure),
+        ("C09", "prefixes") => Ok(PrefixEngine { all_prefixes: true }.run(&serde_json::from_value(case.clone()).map_err(|e| e.to_string())?).failure),
+        ("C10", "twin") => Ok(TwinEngine { kind: TwinKind::Clone }.run(&serde_json::from_value(case.clone()).map_err(|e| e.to_string())?).failure),
+        ("C19", "multi-config") => Ok(MultiEngine.run(&serde_json::from_value(case.clone()).map_err(|e| e.to_string())?).failure),
         ("C15", "hexenum") => Ok(HexEngine.replay(case)),
         ("C16", "concatenum") => Ok(ConcatEngine { tolerate: Default::default() }.replay(case)),
         ("C17", "labels" | "labels-enum") => Ok(LabelEngine.replay(case)),
